@@ -1,10 +1,12 @@
 (** C10 - property theorems (statements only; proofs live in Models/BindProofs.v)
 
     The compile-time Python subset evaluates exactly like CPython.
-    Proved here: argument binding (all signatures x all call shapes), the object of
-    zero-argument super(), binary-operator / comparison dispatch over an abstract class
-    table, and/or/not.  Everything else of the property (closures, classes, comprehensions,
-    unpacking, ...) has no Gallina model and is differential testing in harness/c10.py. *)
+    Proved here, for the models of the code as patched by the fix commits bf02a0d (repeated
+    keyword) and b791a08 (operator dispatch): argument binding (all signatures x all call
+    shapes), binary-operator / comparison dispatch over an abstract class table, and/or/not,
+    and the object of zero-argument super().  Everything else of the property (closures,
+    classes, comprehensions, unpacking, ...) has no Gallina model and is differential testing
+    in harness/c10.py. *)
 From Coq Require Import NArith List Bool.
 From Cohdl Require Import Models.Bind Models.BindProofs.
 Import ListNotations.
@@ -12,47 +14,40 @@ Local Open Scope N_scope.
 
 (** ** argument binding *)
 
-(** PARTIAL: the unguarded statement [forall s c, wf_sig s -> tracer_bind s c = cpython_bind s c]
-    is false (C10_bind_refuted).  Missing: the case of a keyword that occurs twice in the
-    flattened call (`f(a=1, **{'a': 2})`): CPython raises TypeError, the ast.Call handler of the
-    tracer overwrites the dict entry.  With pairwise distinct keywords the tracer's binding
-    (ast.Call dict construction + FunctionDefinition.bind_args as coded) equals the binding
-    rule of the language reference for every signature and every call: same bound objects,
-    same rejections. *)
-Theorem C10_bind_agrees_partial :
-  forall s c, wf_sig s -> NoDup (map fst (c_kws c)) -> tracer_bind s c = cpython_bind s c.
+(** The tracer's binding (ast.Call dict construction with its repeated-keyword assertion +
+    FunctionDefinition.bind_args as coded) equals the binding rule of the language reference
+    for every signature and every call: same bound objects, same rejections. *)
+Theorem C10_bind_agrees :
+  forall s c, wf_sig s -> tracer_bind s c = cpython_bind s c.
 Proof. exact bind_agrees. Qed.
-Print Assumptions C10_bind_agrees_partial.
+Print Assumptions C10_bind_agrees.
 
+(** non-vacuity: upstream fn_j(a=6.321, /, *b, c=None, **d) called fn_j(10, 11, 12, c=13, a=14) *)
 Example C10_bind_agrees_nonvacuous :
-  wf_sig sig_j /\ NoDup (map fst (c_kws call_j)) /\
+  wf_sig sig_j /\
   tracer_bind sig_j call_j = Some [(0, BVal 10); (2, BVal 13); (1, BTuple [11; 12]); (3, BDict [(0, 14)])].
 Proof. exact bind_agrees_nonvacuous. Qed.
 Print Assumptions C10_bind_agrees_nonvacuous.
 
-(** the exact behaviour without the guard: the tracer binds what CPython binds for the call
-    whose repeated keywords are collapsed (last value wins) - CPython itself rejects that call *)
-Theorem C10_bind_characterised :
-  forall s c, wf_sig s -> tracer_bind s c = cpython_bind s (mkCall (c_pos c) (merge_kw (c_kws c))).
-Proof. exact bind_characterised. Qed.
-Print Assumptions C10_bind_characterised.
-
+(** the half "calls that CPython rejects for argument-binding reasons are rejected too", repeated keyword *)
 Theorem C10_bind_rejects_repeated_keyword :
   forall s c, has_dup (map fst (c_kws c)) = true -> cpython_bind s c = None.
 Proof. exact cpython_rejects_dup. Qed.
 Print Assumptions C10_bind_rejects_repeated_keyword.
 
-(** `def f(p0, p1=71)`, `f( **{'p0': 40}, **{'p0': 41})` *)
-Theorem C10_bind_refuted :
-  exists s c, wf_sig s /\ cpython_bind s c = None /\ tracer_bind s c = Some [(0, BVal 41); (1, BVal 71)].
-Proof. exact bind_refuted. Qed.
-Print Assumptions C10_bind_refuted.
+(** regression of the defect fixed by bf02a0d: `def f(p0, p1=71)`, `f( **{'p0': 40}, **{'p0': 41})` *)
+Example C10_bind_repeated_keyword_regression :
+  tracer_bind sig_dup call_dup = None /\ cpython_bind sig_dup call_dup = None.
+Proof. exact bind_repeated_keyword_rejected. Qed.
+Print Assumptions C10_bind_repeated_keyword_regression.
 
 (** ** the object used by zero-argument super() *)
 
-(** PARTIAL: guard = the function has a positional parameter.  Without one CPython raises
-    RuntimeError("super(): no arguments"); bind_args hands the `*args` tuple / the first
-    keyword-only value / the `**kw` dict to super() (C10_super_arg_refuted). *)
+(** PARTIAL: guard = the function has a positional parameter.  Without one bind_args hands the
+    `*args` tuple / the first keyword-only value / the `**kw` dict to super() where CPython raises
+    RuntimeError("super(): no arguments") (C10_super_arg_refuted).  Replayed on the real code:
+    `super(cls, <tuple>)` then raises TypeError, i.e. both sides reject the program - a departure
+    of the model-level value only, NOT a violation of C10. *)
 Theorem C10_super_arg_agrees_partial :
   forall s b, s_posonly s ++ s_args s <> [] -> tracer_super_arg s b = cpython_super_arg s b.
 Proof. exact super_arg_agrees. Qed.
@@ -71,60 +66,57 @@ Print Assumptions C10_super_arg_refuted.
 
 (** ** binary operator dispatch *)
 
-(** PARTIAL: guards = operands of different classes, and CPython's subclass-priority rule
-    does not apply (rhs class a proper subclass of the lhs class that overrides the reflected
-    method).  The tracer has no such rule (C10_dispatch_refuted); for operands of the same
-    class it tries the reflected method where CPython does not (C10_dispatch_same_type_refuted). *)
-Theorem C10_dispatch_agrees_partial :
-  forall T l r op rop, l <> r -> binop_priority T l r rop = false ->
-    tracer_binop T l r op rop = cpython_binop T l r op rop.
+(** The tracer's `overloaded_operator` selects the same method implementation as CPython (or
+    rejects exactly when CPython raises TypeError) for all class tables and all operand classes:
+    subclass priority of the reflected method and the same-type rule included. *)
+Theorem C10_dispatch_agrees :
+  forall T l r op rop, tracer_binop T l r op rop = cpython_binop T l r op rop.
 Proof. exact dispatch_agrees. Qed.
-Print Assumptions C10_dispatch_agrees_partial.
+Print Assumptions C10_dispatch_agrees.
 
-Example C10_dispatch_agrees_nonvacuous :
-  exists T l r op rop, l <> r /\ binop_priority T l r rop = false /\ tracer_binop T l r op rop = DCall 1 1.
-Proof. exact dispatch_agrees_nonvacuous. Qed.
-Print Assumptions C10_dispatch_agrees_nonvacuous.
+(** regressions of the defects fixed by b791a08 (and non-vacuity: three different rules fire) *)
+Example C10_dispatch_subclass_priority_regression :
+  tracer_binop T_prio 0 1 0 1 = DCall 1 1 /\ cpython_binop T_prio 0 1 0 1 = DCall 1 1.
+Proof. exact dispatch_subclass_priority. Qed.
+Print Assumptions C10_dispatch_subclass_priority_regression.
 
-Theorem C10_dispatch_same_type_partial :
-  forall T l op rop, try_call (lookup T l op) op l <> None ->
-    tracer_binop T l l op rop = cpython_binop T l l op rop.
-Proof. exact dispatch_same_type. Qed.
-Print Assumptions C10_dispatch_same_type_partial.
+Example C10_dispatch_same_type_regression :
+  tracer_binop [mkC None [mkM 1 []]] 0 0 0 1 = DReject /\ cpython_binop [mkC None [mkM 1 []]] 0 0 0 1 = DReject.
+Proof. exact dispatch_same_type_no_reflected. Qed.
+Print Assumptions C10_dispatch_same_type_regression.
 
-(** class C0: __add__;  class C1(C0): __radd__;  C0() + C1() - two different VALUES *)
-Theorem C10_dispatch_refuted :
-  exists T l r op rop, l <> r /\
-    tracer_binop T l r op rop = DCall 0 0 /\ cpython_binop T l r op rop = DCall 1 1.
-Proof. exact dispatch_refuted. Qed.
-Print Assumptions C10_dispatch_refuted.
+Example C10_dispatch_reflected_fallback :
+  tracer_binop [mkC None [mkM 0 [1]]; mkC None [mkM 1 []]] 0 1 0 1 = DCall 1 1.
+Proof. exact dispatch_reflected_fallback. Qed.
+Print Assumptions C10_dispatch_reflected_fallback.
 
-(** class C0: __radd__ only;  C0() + C0() - CPython TypeError, the tracer produces a value *)
-Theorem C10_dispatch_same_type_refuted :
-  exists T l op rop, tracer_binop T l l op rop = DCall 0 1 /\ cpython_binop T l l op rop = DReject.
-Proof. exact dispatch_same_type_refuted. Qed.
-Print Assumptions C10_dispatch_same_type_refuted.
-
-(** PARTIAL: comparisons; guard = rhs class not a proper subclass of the lhs class.  Then the
-    tracer either rejects or yields CPython's result (it rejects e.g. where CPython falls back to
-    identity for ==, or where the lhs class inherits the ordering method from object). *)
-Theorem C10_compare_agrees_partial :
-  forall T l r op rop is_eq, proper_subclass T r l = false ->
+(** comparisons: for all class tables and operands the tracer yields CPython's result or rejects
+    (the shape the property demands).  It rejects where CPython falls back to identity for ==,
+    and where a consulted class inherits the ordering method from object (over-rejections). *)
+Theorem C10_compare_agrees :
+  forall T l r op rop is_eq,
     tracer_compare T l r op rop is_eq = DReject \/
     tracer_compare T l r op rop is_eq = cpython_compare T l r op rop is_eq.
 Proof. exact compare_agrees. Qed.
-Print Assumptions C10_compare_agrees_partial.
+Print Assumptions C10_compare_agrees.
 
-Example C10_compare_agrees_nonvacuous :
-  exists T l r op rop, proper_subclass T r l = false /\ tracer_compare T l r op rop false = DCall 1 5.
-Proof. exact compare_agrees_nonvacuous. Qed.
-Print Assumptions C10_compare_agrees_nonvacuous.
+(** equivalently: whenever the tracer produces a value, it is CPython's value *)
+Theorem C10_compare_value_is_cpython :
+  forall T l r op rop is_eq x,
+    tracer_compare T l r op rop is_eq = x -> x <> DReject -> cpython_compare T l r op rop is_eq = x.
+Proof. exact compare_agrees_value. Qed.
+Print Assumptions C10_compare_value_is_cpython.
 
-Theorem C10_compare_refuted :
-  exists T l r op rop,
-    tracer_compare T l r op rop false = DCall 0 4 /\ cpython_compare T l r op rop false = DCall 1 5.
-Proof. exact compare_refuted. Qed.
-Print Assumptions C10_compare_refuted.
+Example C10_compare_subclass_priority_regression :
+  tracer_compare [mkC None [mkM 4 []]; mkC (Some 0) [mkM 5 []]] 0 1 4 5 false = DCall 1 5 /\
+  cpython_compare [mkC None [mkM 4 []]; mkC (Some 0) [mkM 5 []]] 0 1 4 5 false = DCall 1 5.
+Proof. exact compare_subclass_priority. Qed.
+Print Assumptions C10_compare_subclass_priority_regression.
+
+Example C10_compare_reflected_fallback :
+  tracer_compare [mkC None [mkM 4 [1]]; mkC None [mkM 5 []]] 0 1 4 5 false = DCall 1 5.
+Proof. exact compare_reflected_fallback. Qed.
+Print Assumptions C10_compare_reflected_fallback.
 
 (** ** and / or / not yield the truth value of CPython's result *)
 Theorem C10_boolop_truth_value :
